@@ -3,6 +3,8 @@ package main
 // Function encoder: go/ssa body + contracts -> SMT obligations.
 
 import (
+	"go/ast"
+	"regexp"
 	"fmt"
 	"go/token"
 	"go/types"
@@ -67,6 +69,8 @@ type lvalue struct {
 
 type loopInfo struct {
 	header   *ssa.BasicBlock
+	name     string // source text of the range operand when it is an identifier or selector (range loops)
+	byName   bool   // the contract addresses this loop by name (`loop over x`)
 	ordinal  int
 	backs    []*ssa.BasicBlock // sources of back edges
 	body     map[*ssa.BasicBlock]bool
@@ -497,7 +501,21 @@ func (e *Enc) analyzeCFG() {
 				}
 			}
 		}
+		li.name = e.rangeOperandName(h)
 		e.loopList = append(e.loopList, li)
+	}
+	if e.fc != nil {
+		for nm := range e.fc.LoopsOver {
+			n := 0
+			for _, li := range e.loopList {
+				if li.name == nm {
+					n++
+				}
+			}
+			if n != 1 {
+				e.fail("contract addresses `loop over %s`, but the function has %d loops ranging over %s", nm, n, nm)
+			}
+		}
 	}
 	// topological order ignoring back edges
 	visited := map[*ssa.BasicBlock]bool{}
@@ -803,7 +821,77 @@ func (e *Enc) loopContract(li *loopInfo) *LoopContract {
 	if e.fc == nil {
 		return nil
 	}
+	if li.name != "" {
+		if lc := e.fc.LoopsOver[li.name]; lc != nil {
+			n := 0
+			for _, o := range e.loopList {
+				if o.name == li.name {
+					n++
+				}
+			}
+			if n == 1 {
+				li.byName = true
+				return lc
+			}
+		}
+	}
 	return e.fc.Loops[li.ordinal]
+}
+
+// tag names a loop in obligation names: by the range operand when the contract addresses it that way
+// (stable when loops are added or removed elsewhere in the function), by ordinal otherwise.
+func (li *loopInfo) tag() string {
+	if li.byName {
+		return "L(" + li.name + ")"
+	}
+	return fmt.Sprintf("L%d", li.ordinal)
+}
+
+var rangeNameRe = regexp.MustCompile(`^[A-Za-z_][A-Za-z0-9_]*(\.[A-Za-z_][A-Za-z0-9_]*)*$`)
+
+// rangeOperandName finds the source text of the operand of a range loop with header h.
+func (e *Enc) rangeOperandName(h *ssa.BasicBlock) string {
+	var operand ssa.Value
+	for _, ins := range h.Instrs {
+		switch x := ins.(type) {
+		case *ssa.BinOp:
+			if c, ok := x.Y.(*ssa.Call); ok {
+				if b, isB := c.Call.Value.(*ssa.Builtin); isB && b.Name() == "len" && len(c.Call.Args) == 1 {
+					if ph, isPhi := x.X.(*ssa.BinOp); isPhi {
+						if p, ok := ph.X.(*ssa.Phi); ok && p.Comment == "rangeindex" {
+							operand = c.Call.Args[0]
+						}
+					}
+				}
+			}
+		case *ssa.Next:
+			if r, ok := x.Iter.(*ssa.Range); ok {
+				operand = r.X
+			}
+		}
+	}
+	if operand == nil {
+		return ""
+	}
+	if p, ok := operand.(*ssa.Parameter); ok {
+		return p.Name()
+	}
+	for _, b := range e.fn.Blocks {
+		for _, ins := range b.Instrs {
+			if dr, ok := ins.(*ssa.DebugRef); ok && dr.X == operand && !dr.IsAddr {
+				txt := types.ExprString(dr.Expr)
+				if rangeNameRe.MatchString(txt) {
+					return txt
+				}
+				if call, isCall := dr.Expr.(*ast.CallExpr); isCall {
+					if ft := types.ExprString(call.Fun); rangeNameRe.MatchString(ft) {
+						return ft + "()"
+					}
+				}
+			}
+		}
+	}
+	return ""
 }
 
 func (e *Enc) enterLoop(h *ssa.BasicBlock, li *loopInfo, fpreds []*ssa.BasicBlock, fconds []string, merged *State) {
@@ -839,7 +927,7 @@ func (e *Enc) enterLoop(h *ssa.BasicBlock, li *loopInfo, fpreds []*ssa.BasicBloc
 			if nm == "" {
 				nm = fmt.Sprint(i)
 			}
-			e.oblige("inv-entry", fmt.Sprintf("L%d/%s", li.ordinal, nm), fmt.Sprintf("L%d/%s", li.ordinal, nm), entryGuard, goal, h.Instrs[0].Pos(), src)
+			e.oblige("inv-entry", li.tag()+"/"+nm, li.tag()+"/"+nm, entryGuard, goal, h.Instrs[0].Pos(), src)
 		}
 		for k := range e.override {
 			delete(e.override, k)
@@ -913,7 +1001,7 @@ func (e *Enc) enterLoop(h *ssa.BasicBlock, li *loopInfo, fpreds []*ssa.BasicBloc
 		e.note(fmt.Sprintf("loop L%d of %s has no invariant (havoc only)", li.ordinal, e.key))
 	}
 	// cover: loop body reachable
-	o := e.oblige("cover", fmt.Sprintf("loop-L%d", li.ordinal), "", "true", r, h.Instrs[0].Pos(), "")
+	o := e.oblige("cover", "loop-"+li.tag(), "", "true", r, h.Instrs[0].Pos(), "")
 	o.Cover = true
 }
 
@@ -970,7 +1058,7 @@ func (e *Enc) leaveLoop(from *ssa.BasicBlock, li *loopInfo, st *State) {
 		if nm == "" {
 			nm = fmt.Sprint(i)
 		}
-		e.oblige("inv-keep", fmt.Sprintf("L%d/%s@b%d", li.ordinal, nm, from.Index), fmt.Sprintf("L%d/%s", li.ordinal, nm), guard, goal, from.Instrs[len(from.Instrs)-1].Pos(), src)
+		e.oblige("inv-keep", fmt.Sprintf("%s/%s@b%d", li.tag(), nm, from.Index), li.tag()+"/"+nm, guard, goal, from.Instrs[len(from.Instrs)-1].Pos(), src)
 	}
 	for k := range e.override {
 		delete(e.override, k)
@@ -985,7 +1073,7 @@ func (e *Enc) leaveLoop(from *ssa.BasicBlock, li *loopInfo, st *State) {
 		if when == "false" && wsrc != sc.When.Src {
 			when, goal, src = "true", "false", wsrc
 		}
-		e.oblige("step", fmt.Sprintf("L%d/%s@b%d", li.ordinal, sc.Name, from.Index), fmt.Sprintf("L%d/%s", li.ordinal, sc.Name), fmt.Sprintf("(and %s %s)", guard, when), goal, from.Instrs[len(from.Instrs)-1].Pos(), src)
+		e.oblige("step", fmt.Sprintf("%s/%s@b%d", li.tag(), sc.Name, from.Index), li.tag()+"/"+sc.Name, fmt.Sprintf("(and %s %s)", guard, when), goal, from.Instrs[len(from.Instrs)-1].Pos(), src)
 	}
 }
 
